@@ -40,11 +40,16 @@ func c07Prelude() string {
 	sb.WriteString("vmdel = {\"a\": 1, \"b\": [1, 2, 3, 4, 5, 6, 7, 8, 9]}; del(vmdel.b)\n")
 	sb.WriteString("vmshrunk = {1: 1, 2: 2, 3: 3, 4: 4, 5: 5}; del(vmshrunk[5])\n")
 	sb.WriteString("vaslice = [1, 2, 3, 4, 5, 6, 7, 8, 9][0:3]\n")
+	// large representations emptied or reduced to one element, a literal with repeated keys
+	sb.WriteString("vmempty = {1: 1, 2: 2, 3: 3, 4: 4, 5: 5}; del(vmempty[1]); del(vmempty[2]); del(vmempty[3]); del(vmempty[4]); del(vmempty[5])\n")
+	sb.WriteString("vmone = {1: 1, 2: 2, 3: 3, 4: 4, 5: 5, 6: 6}; del(vmone[1]); del(vmone[2]); del(vmone[3]); del(vmone[4]); del(vmone[5])\n")
+	sb.WriteString("vmdup = {1: 1, 1: 2, 1: 3, 1: 4, 1: 5, 1: 6}\n")
+	sb.WriteString("vaempty = [1, 2, 3, 4, 5, 6, 7, 8, 9][0:0]\n")
 	return sb.String()
 }
 
 func c07Names() []string {
-	names := []string{"vnamed", "vmdel", "vmshrunk", "vaslice"}
+	names := []string{"vnamed", "vmdel", "vmshrunk", "vaslice", "vmempty", "vmone", "vmdup", "vaempty"}
 	for _, u := range c07Universe {
 		names = append(names, u.name)
 	}
@@ -229,6 +234,56 @@ func runC07(c *core.Ctx) {
 			do("ext", prelude, "sleep("+a+")")
 		}
 		bounds = append(bounds, fmt.Sprintf("%d builtins/extensions (restricted IO configuration) x every value in argument positions 1 and 2, third position from a 6-value subset", len(fns)))
+	}
+	// 3a. the stateful image API: two images of every size combination x every image operation with boundary arguments
+	if ok {
+		dims := []int{0, 1, 2, 5}
+		colors := []string{"[255, 0, 0]", "[1, 2, 3, 4]", "[]", "[1]", "[256, -1, 0]", "[\"a\", 1, 2]", "[1.5, 2, 3]", "[NaN, Inf, -Inf]", "[1, 2, 3, 4, 5]"}
+		floats := []string{"0.0", "-1.0", "1.5", "1e300", "-1e300", "NaN", "Inf"}
+		n := 0
+		for _, w1 := range dims {
+			for _, h1 := range dims {
+				for _, w2 := range dims {
+					for _, h2 := range dims {
+						pre := fmt.Sprintf("image.new(\"ia\", %d, %d); image.new(\"ib\", %d, %d)\n", w1, h1, w2, h2)
+						for _, op := range []string{`image.add("ia", "ib")`, `image.add("ib", "ia")`, `image.add("ia", "ia")`, `image.add("ia", "nope")`, `image.add("nope", "ia")`,
+							`image.add("ia", "ib"); image.png("ia")`, `image.draw("ia", [1, 2, 3]); image.add("ib", "ia"); image.png("ib")`} {
+							n++
+							if ok = do("image", "", pre+op); !ok {
+								break
+							}
+						}
+					}
+				}
+				// single image operations at and beyond its borders
+				pre := fmt.Sprintf("image.new(\"ia\", %d, %d)\n", w1, h1)
+				for _, x := range []int{-1, 0, w1 - 1, w1, 1 << 40} {
+					for _, y := range []int{-1, 0, h1 - 1, h1} {
+						for _, col := range colors {
+							for _, fn := range []string{"image.set", "image.set_hsl", "image.set_ycbcr"} {
+								n++
+								do("image", "", pre+fmt.Sprintf("%s(\"ia\", %d, %d, %s); image.png(\"ia\")", fn, x, y, col))
+							}
+						}
+					}
+				}
+				for _, a := range floats {
+					for _, b := range floats {
+						n++
+						do("image", "", pre+fmt.Sprintf("image.move_to(\"ia\", %s, %s); image.line_to(\"ia\", %s, %s); image.line_to(\"ia\", 1.0, 1.0); image.close_path(\"ia\"); image.draw(\"ia\", [1, 2, 3]); image.png(\"ia\")", a, b, b, a))
+						do("image", "", pre+fmt.Sprintf("image.move_to(\"ia\", 0.0, 0.0); image.quad_to(\"ia\", %s, %s, 1.0, 1.0); image.cube_to(\"ia\", %s, 0.5, 0.5, %s, 1.0, 0.0); image.draw_hsl(\"ia\", [0.5, 0.5, 0.5]); image.draw_ycbcr(\"ia\", [1, 2, 3])", a, b, a, b))
+					}
+				}
+				for _, col := range colors {
+					do("image", "", pre+"image.move_to(\"ia\", 0.0, 0.0); image.line_to(\"ia\", 3.0, 0.0); image.line_to(\"ia\", 0.0, 3.0); image.draw(\"ia\", "+col+"); image.draw_hsl(\"ia\", "+col+"); image.draw_ycbcr(\"ia\", "+col+")")
+				}
+				do("image", "", pre+"image.draw(\"ia\", [1, 2, 3]); image.close_path(\"ia\"); image.line_to(\"ia\", 1.0, 1.0); image.save(\"ia\"); image.png(\"ia\")")
+			}
+		}
+		for _, sz := range [][2]string{{"-1", "5"}, {"5", "-1"}, {"0", "0"}, {"100000", "100000"}, {"3000000000", "3000000000"}, {"9223372036854775807", "2"}, {"65536", "65536"}, {"46341", "46341"}, {"1", "1073741824"}} {
+			do("image", "", fmt.Sprintf("image.new(\"big\", %s, %s); image.set(\"big\", 0, 0, [1, 2, 3]); len(image.png(\"big\"))", sz[0], sz[1]))
+		}
+		bounds = append(bounds, fmt.Sprintf("image API: two images of every size in {0,1,2,5}^2 each x 7 merge programs; every set/set_hsl/set_ycbcr at and beyond the borders x 9 colour arrays; paths with every pair of 7 float extremes; degenerate / huge image sizes (%d programs)", n))
 	}
 	// 3b. nested counted loops with every way of leaving them (register allocation / release paths)
 	if ok {
